@@ -1156,6 +1156,12 @@ func (fr *frame) builtin(name string, c *ssa.Call, args []Val) Val {
 			if keys, ok := fr.in.MapKeys[a.S]; ok {
 				return int64Val(int64(len(keys)))
 			}
+			// a map the evaluated code made, every entry stored under a constant key
+			if _, isMap := c.Call.Args[0].Type().Underlying().(*types.Map); isMap && strings.Contains(a.S, "#") {
+				if keys, ok := fr.freshMapKeys(a.S); ok {
+					return int64Val(int64(len(keys)))
+				}
+			}
 			if fr.in.Symbolic && !strings.Contains(a.S, "#") {
 				return symVal("len("+a.S+")", a.Dep)
 			}
